@@ -208,7 +208,8 @@ def mutate(rng, f, alg, qop, others):
         v = g.get(field, "x")
         if v:
             i = rng.randrange(len(v))
-            g[field] = v[:i] + ("y" if v[i] != "y" else "z") + v[i + 1:]
+            # (sometimes a character outside ASCII: whatever the header holds, the answer is 401, never an error)
+            g[field] = v[:i] + (rng.choice(["é", "ÿ", "€"]) if rng.random() < 0.25 else ("y" if v[i] != "y" else "z")) + v[i + 1:]
         else:
             g[field] = "y"
     elif kind == "swap":
